@@ -89,7 +89,7 @@ class Check(object):
         return True
 
     def write_replay(self, key, what, replay):
-        d = os.path.join(VERIF, "replays")
+        d = os.environ.get("EON_VERIF_REPLAY_DIR") or os.path.join(VERIF, "replays")
         os.makedirs(d, exist_ok=True)
         h = hashlib.sha1((self.pid + key).encode()).hexdigest()[:12]
         p = os.path.join(d, "%s_%s.json" % (self.pid, h))
@@ -139,7 +139,8 @@ class Check(object):
         ev = {"property_id": self.pid, "tier": self.tier, "seed": self.seed, "level": self.level,
               "coverage": cov, "assumptions": self.assumptions,
               "wall_s": round(time.time() - self.t0, 2), "violations": len(self.violations)}
-        d = os.path.join(VERIF, "evidence")
+        # runs against a scratch copy of the repository (mutation campaigns) must not overwrite the evidence of /repo
+        d = os.environ.get("EON_VERIF_EVIDENCE_DIR") or os.path.join(VERIF, "evidence")
         os.makedirs(d, exist_ok=True)
         with open(os.path.join(d, "%s.json" % self.pid), "w") as fh:
             json.dump(ev, fh, indent=1, default=_jd)
